@@ -221,8 +221,9 @@ StreamsManagerBase<MAX_STREAMS> {
         wakers[stream_id as usize] = None;
         ogre_sync::unlock(&self.wakers_lock);
         self.finished_streams_count.fetch_add(1, Relaxed);
-        self.used_streams_count.fetch_sub(1, Relaxed);
+        // the id is made available before the count goes down: whoever sees `running_streams_count() < MAX_STREAMS` finds a vacant id
         self.vacant_streams.publish_movable(stream_id);
+        self.used_streams_count.fetch_sub(1, Relaxed);
         self.sync_vacant_and_used_streams();
     }
 
